@@ -84,14 +84,21 @@ func TestC16Routes(t *testing.T) {
 	w := prod(t)
 	rec := kit.NewRecorder(t, "C16")
 	rapid.Check(t, func(rt *rapid.T) {
-		denom := pick(rt, "denom", []string{world.Uusdc, world.Ufoo})
+		denom := pick(rt, "denom", []string{world.Uusdc, world.Ufoo, world.Uusdc, world.Ufoo, world.SwapDenomUpper})
 		tr := kit.GenTransfer(rt, w, kit.TransferOpt{
 			Route:      kit.RouteOpt{EnvValid: true, Kinds: []string{"hyp", "hyp", "cctp"}},
 			FeeClasses: []string{"plain"}, MaxActions: 1, KeepBelowLimit: true, Denoms: []string{denom},
 		})
 		tr.Amount = fmt.Sprint(1 + rapid.IntRange(0, 99999).Draw(rt, "amount"))
 		c := caseC16Route{Transfer: tr, Named: "own"}
-		if tr.Route.Kind == "hyp" && kit.Chance(rt, "crossed", 55) {
+		if denom == world.SwapDenomUpper {
+			// no token of its own: routed through the token of the denomination that differs from
+			// it by letter case only, with coins of that one on the account
+			c.Transfer.Actions = nil
+			c.Transfer.Route = kit.Route{Kind: "hyp", TokenID: append([]byte{}, w.HypToken[world.SwapDenom]...), Domain: pick(rt, "casefold/domain", world.HypDomains), Recipient: kit.Bytes32(rt, "casefold/rcpt")}
+			c.Named = world.SwapDenom
+			c.Deposits = append(c.Deposits, kit.Env{Kind: "mint_to_orbiter", Denom: world.SwapDenom, Amount: "1000000"})
+		} else if tr.Route.Kind == "hyp" && kit.Chance(rt, "crossed", 55) {
 			c.Transfer.Actions = nil
 			c.Transfer.Route, c.Named = kit.CrossedTokenRoute(rt, w, "crossed", denom)
 		}
